@@ -1093,6 +1093,89 @@ class Machine:
             return self.apply(self.funcs[meth], None, args, env, name=meth)
         raise Unab("method %s of %s" % (meth, show_val(base)[:60]))
 
+    # ---- class instances ------------------------------------------------------------------------------------
+    def field_defaults(self, cls, obj, env):
+        rec = getattr(self, "records", {}).get(cls)
+        if rec is None:
+            return
+        for k in A.kids(rec):
+            if k.get("kind") == "FieldDecl":
+                ks = [c for c in A.kids(k) if not (c.get("kind") or "").endswith(("Attr", "Comment"))]
+                ty = k.get("type", {}).get("qualType", "")
+                if ks:
+                    n0 = A.strip(ks[-1])
+                    if n0.get("kind") in ("InitListExpr", "ParenListExpr") and not A.kids(n0):
+                        obj.f[k.get("name")] = self.default_value(ty, k.get("name"), env)
+                    else:
+                        v = self.rv(self.ev(TE(ks[-1]), env))
+                        if isinstance(v, Vec) and v.name == "initializer list":
+                            v = v.items[0] if len(v.items) == 1 else (self.default_value(ty, k.get("name"), env) if not v.items else v)
+                        obj.f[k.get("name")] = self.copyval(v)
+                else:
+                    obj.f[k.get("name")] = self.default_value(ty, k.get("name"), env)
+
+    def ctor_score(self, d, vals):
+        """how well a constructor's parameter types fit the argument values (clients refine this through `ctor_match`)"""
+        h = getattr(self, "ctor_match", None)
+        score = 0
+        for p, v in zip(A.params(d.node), vals):
+            ty = p.get("type", {}).get("qualType", "")
+            if h is not None:
+                r = h(ty, self.rv(v))
+                if r is False:
+                    return None
+                score += 1 if r else 0
+        return score
+
+    def construct_record(self, cls, vals, env=None):
+        ctors = [d for d in self.decls.get(cls, []) if d.kind == "CXXConstructorDecl" and d.qname.split("::")[-2:-1] == [cls]
+                 and len(A.params(d.node)) >= len(vals) and sum(1 for p in A.params(d.node) if not A.kids(p)) <= len(vals)]
+        scored = [(self.ctor_score(d, vals), d) for d in ctors]
+        scored = [(sc, d) for sc, d in scored if sc is not None]
+        if not scored:
+            raise Unab("no constructor of %s for %d argument(s)" % (cls, len(vals)))
+        best = max(sc for sc, _ in scored)
+        pick = [d for sc, d in scored if sc == best]
+        d = pick[0]
+        obj = Obj(cls)
+        new = Env(self.global_env)
+        self.field_defaults(cls, obj, new)
+        self.bind_params(A.params(d.node), vals, new, d.qname)
+        saved = self.this
+        self.this = obj
+        self.depth += 1
+        if self.depth > 40:
+            raise Unab("call depth")
+        try:
+            for k in A.kids(d.node):
+                if k.get("kind") != "CXXCtorInitializer":
+                    continue
+                init = [c for c in A.kids(k)]
+                n0 = A.strip(init[0]) if init else {}
+                if n0.get("kind") in ("InitListExpr", "ParenListExpr", "CXXConstructExpr", "CXXUnresolvedConstructExpr", "CXXTemporaryObjectExpr"):
+                    argx = [TE(c) for c in A.kids(n0) if c.get("kind") != "CXXDefaultArgExpr"]
+                else:
+                    argx = [TE(init[0])] if init else []
+                if "anyInit" in k:
+                    fname = k["anyInit"].get("name")
+                    fty = k["anyInit"].get("type", {}).get("qualType", "")
+                    if len(argx) == 1:
+                        obj.f[fname] = self.copyval(self.ev(argx[0], new))
+                    elif not argx:
+                        obj.f[fname] = self.default_value(fty, fname, new)
+                    else:
+                        obj.f[fname] = self.construct(fty, argx, new)
+                else:
+                    tmp = self.construct_record(cls, [self.ev(a, new) for a in argx], new)
+                    obj.f.update(tmp.f)
+            self.run(A.body(d.node), new)
+        except _Return:
+            pass
+        finally:
+            self.this = saved
+            self.depth -= 1
+        return obj
+
     def construct(self, ty, args, env):
         tyn = re.sub(r"\s+", "", ty or "")
         args = [a for a in args if a != ("default",)]
@@ -1115,6 +1198,8 @@ class Machine:
         if is_int_type(tyn) or tyn in ("double", "float", "constdouble", "Scalar", "bool", "constauto", "auto", "S", "T", "_Scalar", "Scalar_", "void") or tyn.endswith("Scalar"):
             if len(args) == 1:
                 v = self.eval(args[0], env)
+                if isinstance(v, Vec) and v.name == "initializer list":
+                    v = self.rv(v.items[0]) if len(v.items) == 1 else (Fraction(0) if not v.items else v)      # T{x}, T{}
                 if is_int_type(tyn) and isinstance(simp(v), Fraction):
                     v = simp(v)
                     return Fraction(int(v)) if v >= 0 else -Fraction(int(-v))
@@ -1564,6 +1649,46 @@ def _get(M, args, env, name):
     raise Unab("std::get form %s" % name)
 
 
+def _sort(M, *a):
+    if len(a) >= 2 and isinstance(a[0], It) and isinstance(a[1], It):
+        v = a[0].v
+        seg = v.items[a[0].i:a[1].i]
+        try:
+            seg.sort(key=lambda x: simp(x))
+        except TypeError:
+            raise Unab("sort of non-constant values")
+        v.items[a[0].i:a[1].i] = seg
+        return None
+    if len(a) >= 1 and isinstance(a[0], Vec):
+        a[0].items.sort(key=lambda x: simp(x))
+        return None
+    raise Unab("sort form")
+
+
+def _all_of(M, *a):
+    rng, f = (a[0], a[1]) if isinstance(a[0], Vec) else (Vec(a[0].v.items[a[0].i:a[1].i]), a[2])
+    return all(M.truth(M.apply(f, [Cell(x)], None, None)) for x in rng.items)
+
+
+def _any_of(M, *a):
+    rng, f = (a[0], a[1]) if isinstance(a[0], Vec) else (Vec(a[0].v.items[a[0].i:a[1].i]), a[2])
+    return any(M.truth(M.apply(f, [Cell(x)], None, None)) for x in rng.items)
+
+
+def _accumulate(M, first, last, init, f=None):
+    acc = init
+    for x in first.v.items[first.i:last.i]:
+        acc = M.rv(M.apply(f, [Cell(acc), Cell(x)], None, None)) if f is not None else M.arith("+", acc, x)
+    return acc
+
+
+def _swap(M, args, env, name):
+    a, b = M.lval(args[0], env), M.lval(args[1], env)
+    va, vb = a.get(), b.get()
+    a.set(vb)
+    b.set(va)
+
+
 BUILTINS = {
     "min": _pure(_minmax("min")), "max": _pure(_minmax("max")), "clamp": _pure(_clamp), "abs": _pure(_abs), "fabs": _pure(_abs),
     "sqrt": _pure(_sqrt), "pow": _pure(_pow), "floor": _pure(_floor), "ceil": _pure(_ceil),
@@ -1572,6 +1697,7 @@ BUILTINS = {
     "size": _pure(_size), "ssize": _pure(_size), "distance": _pure(_distance), "next": _pure(_next), "prev": _pure(_prev),
     "iota": _pure(_iota), "zip": _pure(_zip), "make_pair": _pure(_make_pair), "make_tuple": _pure(_make_pair), "tie": _pure(_make_pair),
     "get": PyFunc(_get, lazy=True),
+    "sort": _pure(_sort), "all_of": _pure(_all_of), "any_of": _pure(_any_of), "accumulate": _pure(_accumulate), "swap": PyFunc(_swap, lazy=True),
     "begin": _pure(lambda M, v: v.m_begin(M, [], None)), "end": _pure(lambda M, v: v.m_end(M, [], None)),
     "cbegin": _pure(lambda M, v: v.m_begin(M, [], None)), "cend": _pure(lambda M, v: v.m_end(M, [], None)),
     "name:reverse": PyFunc(lambda M, n, env, name=None: RangeAdaptor("reverse", _reverse), lazy=True),
